@@ -239,6 +239,16 @@ pub fn schema_src_sexp(schema_text: &str, is_json: bool) -> Result<Sexp, String>
     }
 }
 
+/// the model's `default_*` bodies (`Model/DefaultLit.lean`), same arguments as `run_model`
+pub fn run_model_defaults(model: &mut Model, schema_src: &Sexp, schema_text: &str, query_text: &str, opts: &Opts) -> Sexp {
+    let doc = match graphql_parser::parse_query::<String>(query_text) {
+        Ok(d) => d,
+        Err(e) => return tagged("err", vec![st(&format!("Query parser error: {}", e))]),
+    };
+    let cases = case_table(&[schema_text, query_text, opts.struct_ident.as_deref().unwrap_or("")]);
+    model.ask(&tagged("defaults", vec![schema_src.clone(), query_doc_sexp(&doc), st(query_text), opts.to_sexp(), cases]))
+}
+
 pub fn run_model(
     model: &mut Model,
     schema_src: &Sexp,
